@@ -1,9 +1,11 @@
 package run
 
 import (
+	"context"
 	"errors"
 	"fmt"
 	"math/rand"
+	stdnet "net"
 	"strings"
 	"testing"
 	"time"
@@ -33,6 +35,11 @@ type C19W struct {
 	// 400 ms used in such runs), so that a request holds the adaptation lock for longer than one
 	// request timeout while unsolicited updates wait behind it.
 	SlowMs int `json:"slow_ms,omitempty"`
+	// StartBlocked: the never-started stub's Start() is in progress (its dialer never returns) while
+	// UpdateContainers is called on it: it must still report "no service" without blocking.
+	StartBlocked bool `json:"start_blocked,omitempty"`
+	// CfgUpdate: the named plugin issues one unsolicited update from inside its Configure handler.
+	CfgUpdate string `json:"cfg_update,omitempty"`
 }
 
 type C19Kill struct {
@@ -62,6 +69,12 @@ func c19Gen(rng *rand.Rand, conf string, idx int) any {
 	}
 	if rng.Intn(4) == 0 {
 		w.SlowMs = 250
+	}
+	if w.Unstarted && rng.Intn(2) == 0 {
+		w.StartBlocked = true
+	}
+	if rng.Intn(4) == 0 {
+		w.CfgUpdate = w.Plugins[rng.Intn(n)].Name
 	}
 	if rng.Intn(3) == 0 {
 		k := rng.Intn(n)
@@ -139,7 +152,7 @@ func c19Run(t *testing.T, wl any, sc SchedCfg) *Result {
 		}
 		h.UpdScript = func(n int, u []*api.ContainerUpdate) ([]*api.ContainerUpdate, string) {
 			pn, c, ok := callOf(u)
-			if !ok {
+			if !ok || strings.HasSuffix(pn, "@cfg") {
 				return nil, ""
 			}
 			cl := w.Calls[pidx[pn]][c]
@@ -155,17 +168,43 @@ func c19Run(t *testing.T, wl any, sc SchedCfg) *Result {
 			return failed, ""
 		}
 		plugs := make([]*Plug, len(w.Plugins))
+		var cfgRet *c19Ret
 		for k, pw := range w.Plugins {
 			plugs[k] = h.AddPlugin(pw.Name, pw.Idx, 0)
+			if pw.Name == w.CfgUpdate {
+				p := plugs[k]
+				cfgRet = &c19Ret{}
+				p.OnConfigure = func() {
+					f, err := p.Stub.UpdateContainers(c19Updates(p.Name+"@cfg", 0, 2))
+					cfgRet.Failed, cfgRet.Err, cfgRet.Done = f, err, true
+				}
+				e.S.Probe("C19.update-from-configure-handler")
+			}
 			h.StartTask(plugs[k])
 		}
 		var noSvcErr error
 		noSvcDone := false
 		if w.Unstarted {
 			// a stub that is never started: must report "no service" without blocking
-			st, err := stub.New(&Plug{h: h, Name: "never"}, stub.WithPluginName("never"), stub.WithPluginIdx("99"), stub.WithConnection(e.S.Listen().Dial("never")), stub.WithOnClose(func() {}))
+			opts := []stub.Option{stub.WithPluginName("never"), stub.WithPluginIdx("99"), stub.WithOnClose(func() {})}
+			if w.StartBlocked {
+				opts = append(opts, stub.WithDialer(func(string) (stdnet.Conn, error) {
+					<-e.Hung() // the runtime's socket never answers
+					return nil, fmt.Errorf("dial abandoned")
+				}))
+			} else {
+				opts = append(opts, stub.WithConnection(e.S.Listen().Dial("never")))
+			}
+			st, err := stub.New(&Plug{h: h, Name: "never"}, opts...)
 			if err != nil {
 				panic(err)
+			}
+			if w.StartBlocked {
+				go func() {
+					e.S.SetGName("blocked-start")
+					st.Start(context.Background())
+				}()
+				e.S.Probe("C19.update-while-start-in-progress")
 			}
 			e.Task("unstarted", func() {
 				_, noSvcErr = st.UpdateContainers(c19Updates("never", 0, 2))
@@ -252,9 +291,26 @@ func c19Run(t *testing.T, wl any, sc SchedCfg) *Result {
 				res.Violate("C19.no-service", "UpdateContainers on a stub that was never started returned %v (done=%v), want ErrNoService", noSvcErr, noSvcDone)
 			}
 		}
+		if cfgRet != nil {
+			n := 0
+			for _, ev := range h.UpdLog {
+				if len(ev.Updates) > 0 && strings.HasPrefix(ev.Updates[0].GetContainerId(), "u-"+w.CfgUpdate+"@cfg-") {
+					n++
+				}
+			}
+			if !cfgRet.Done || cfgRet.Err != nil || n != 1 {
+				res.Violate("C19.exactly-once", "plugin %s issued an unsolicited update from its Configure handler: returned=%v err=%v, the runtime callback saw it %d times", w.CfgUpdate, cfgRet.Done, cfgRet.Err, n)
+			}
+			if p := h.Plugs[w.CfgUpdate]; p != nil && p.StartErr != nil {
+				res.Violate("C19.exactly-once", "plugin %s, which updates from its Configure handler, failed to start: %v", w.CfgUpdate, p.StartErr)
+			}
+		}
 		seen := map[string]int{}
 		for _, ev := range h.UpdLog {
 			pn, c, ok := callOf(ev.Updates)
+			if ok && strings.HasSuffix(pn, "@cfg") {
+				continue // the update issued from a Configure handler is judged above
+			}
 			if !ok {
 				if len(ev.Updates) == 0 {
 					seen["empty"]++
@@ -357,16 +413,29 @@ func c19Run(t *testing.T, wl any, sc SchedCfg) *Result {
 				firstEntry[en.Token] = en.Step
 			}
 		}
+		retOf := map[string]int{}
+		for _, rq := range reqs {
+			retOf[rq.ID] = rq.Ret
+		}
+		// a handler counts as running until it returns - or until its request has returned to the
+		// runtime's caller (a handler of a plugin whose connection died is an orphan from then on)
+		hexit := func(en *Entry) int {
+			x := exit(en.Exit)
+			if r, ok := retOf[en.Token]; ok && r >= 0 && r < x {
+				x = r
+			}
+			return x
+		}
 		overl := 0
 		for i, u := range h.UpdLog {
 			for _, en := range entries {
 				if en.RPC == "Synchronize" {
 					continue
 				}
-				if en.Step > u.Enter && en.Step < exit(u.Exit) {
+				if en.Step > u.Enter && en.Step < exit(u.Exit) && en.Step < hexit(en) {
 					res.Violate("C19.mutual-exclusion", "handler %s/%s of request %s entered at step %d while the runtime's update callback #%d was running (steps %d..%d)", en.Plugin, en.RPC, en.Token, en.Step, u.N, u.Enter, u.Exit)
 				}
-				if u.Enter > en.Step && u.Enter < exit(en.Exit) {
+				if u.Enter > en.Step && u.Enter < hexit(en) {
 					res.Violate("C19.mutual-exclusion", "update callback #%d entered at step %d while handler %s/%s of request %s was running (steps %d..%d)", u.N, u.Enter, en.Plugin, en.RPC, en.Token, en.Step, en.Exit)
 				}
 			}
